@@ -63,6 +63,12 @@ TFailedCall ==
   /\ Chk("failed_call_leaves_users_model_unchanged", Ev.user_unchanged)
   /\ UNCHANGED pool /\ Same /\ Step
 
+\* an interface that cannot be created (something in the model cannot be copied) leaves the user's model alone
+TFailedConstruction ==
+  /\ IsEvent("failed_construction")
+  /\ Chk("users_model_unchanged_by_a_failed_interface_construction", ~Ev.raised \/ Ev.user_unchanged)
+  /\ UNCHANGED pool /\ Same /\ Step
+
 TUserAssign == IsEvent("user_assign") /\ UNCHANGED pool /\ Same /\ Step
 
 \* --- numeric regime: eager / jit / vmap / direct assignment ---------------------------------
@@ -92,5 +98,5 @@ TPlain ==
   /\ Chk("log_prob_reads_the_state", Ev.lp = Ev.expected_lp)
   /\ UNCHANGED pool /\ Same /\ Step
 
-TNext == TState \/ TFailedCall \/ TUpdateState \/ TExtract \/ TUserAssign \/ TNumeric \/ TPlain
+TNext == TFailedConstruction \/ TState \/ TFailedCall \/ TUpdateState \/ TExtract \/ TUserAssign \/ TNumeric \/ TPlain
 =============================================================================
